@@ -430,6 +430,9 @@ func genStoreCase(rng *hlib.Rng, prop string, thorough bool) SIn {
 					choices = append(choices, SFault{Table: "ger_del", K: k})
 				}
 				f := choices[rng.Intn(len(choices))]
+				if len(choices) > 1 && rng.Intn(4) != 0 { // prefer the statements of the events over the block row
+					f = choices[1+rng.Intn(len(choices)-1)]
+				}
 				if rng.Intn(10) == 0 { // a fault position the block does not reach: the attempt succeeds
 					f.K += 3
 				}
